@@ -38,7 +38,7 @@ def generate(seed, tier):
         otus, _ = mod.generate(seed, 'quick')
         otus = [t for t in otus if t.weight == 1]
         for t in rnd.sample(otus, min(len(otus), 2 if quick else 4)):
-            cs = t.cases if len(t.cases) <= (8 if quick else 24) else rnd.sample(t.cases, 8 if quick else 24)
+            cs = t.cases if len(t.cases) <= (6 if quick else 24) else rnd.sample(t.cases, 6 if quick else 24)
             tus.append(TU('u_' + t.name, cs, headers=t.headers, weight=1, pre=t.pre))
     isas = ['scalar', 'sse2', 'sse42', 'avx', 'avx2', 'avx512', 'avx512f']
     cfgs = []
@@ -53,8 +53,8 @@ def generate(seed, tier):
         for m in ('FASTOR_USE_VECTORISED_EXPR_ASSIGN', 'FASTOR_ZERO_INITIALISE', 'FASTOR_USE_HADD'):
             cfgs.append(Cfg('avx2', '14', 'O2', macros=(m,), extra=OFF))
         cfgs.append(Cfg('sse2', '14', 'O2', macros=('FASTOR_USE_HADD',), extra=OFF))
-        for m in ('FASTOR_MATMUL_OUTER_BLOCK_SIZE=2', 'FASTOR_MATMUL_INNER_BLOCK_SIZE=3'):
-            cfgs.append(Cfg('avx512', '14', 'O2', macros=(m,), extra=OFF, only_tus='u_c01*'))
+        for m in ('FASTOR_MATMUL_OUTER_BLOCK_SIZE=2', 'FASTOR_MATMUL_INNER_BLOCK_SIZE=3', 'FASTOR_MATMUL_INNER_BLOCK_SIZE=5'):
+            cfgs.append(Cfg('avx512' if '5' not in m else 'sse2', '14', 'O2', macros=(m,), extra=OFF, only_tus='u_c01*'))
         cfgs.append(Cfg('avx2', '14', 'O2', macros=('FASTOR_TRANS_OUTER_BLOCK_SIZE=2', 'FASTOR_TRANS_INNER_BLOCK_SIZE=2'), extra=OFF, only_tus='u_c14*'))
         cfgs.append(Cfg('avx2', '14', 'O2', macros=('FASTOR_DONT_PERFORM_OP_MIN',), extra=OFF, only_tus='u_c16*'))
     else:
